@@ -22,7 +22,9 @@ inductive VReach (prog : List (List String)) : VSt → Prop
     is looked up AGAIN - `remove_precheck_accepted`; a reset may check under the read lock first whether
     the map is empty: an empty map commits there, a non-empty one at the write lock, where whatever the
     map holds then is cleared - `reset_precheck_accepted`); a collect's key set at its
-    read lock and each child value at its load; an update through a handle at its fetch_add — so the
+    read lock and each child value at its load; an update through a handle at its fetch_add, or - when
+    the increment is written as a load + compare-exchange loop - at its SUCCESSFUL compare-exchange (the
+    loads and the failed exchanges of the loop commit nothing: `child_inc_as_cas_loop_accepted`) — so the
     order is consistent with real time. -/
 theorem vec_linearizable {prog : List (List String)} {s : VSt} (h : VReach prog s) :
     specRunV {} s.lin = some s.spec := by
@@ -140,7 +142,7 @@ theorem vec_idle_thread_may_have_committed :
       ∃ th th' x y, s.ths[1]? = some th ∧ s.ths[0]? = some th' ∧ 0 < th.idx ∧
         (1 = th'.idx ∧ th'.pc = none ∧ th'.retv = none) ∧
         s.lin[2]? = some x ∧ s.lin[1]? = some y ∧ (x.tid = 1 ∧ x.idx = 0) ∧ (y.tid = 0 ∧ y.idx = 1) := by
-    simp [runItems, subcallTrace, vInit, vItem, vStep, vEff, setHandle, Conc.guard, openCall, closeCall, r0, og,
+    simp [runItems, subcallTrace, vInit, vItem, vStep, vIncAdd, bindChild, vEff, setHandle, Conc.guard, openCall, closeCall, r0, og,
       opName_with_a, opArg_with_a, opName_reset, endsWith_0u, endsWith_0, VSpec.lookup, VSpec.apply]
   obtain ⟨s, hr, th, th', x, y, h1, h2, h3, h4, h5, h6, h7, h8⟩ := h
   exact ⟨s, vReach_iff_vRun.2 (runItems_vRun hr), .init, th, th', x, y, h1, h2, h3, h4, h5, h6, h7, h8, by omega⟩
@@ -298,6 +300,157 @@ theorem reset_precheck_accepted :
     exact (let ⟨s, hr, h1⟩ := h; ⟨s, hr, reach hr, h1⟩)
   · simp [runItems, resetSkippedTrace, vInit, vItem, vStep, vEff, setHandle, Conc.guard, openCall, closeCall,
       r0, r1, opName_with_a, opArg_with_a, opName_reset, endsWith_0, endsWith_1, VSpec.lookup, VSpec.apply]
+    decide +kernel
+
+/-! ### the handle update written as a load + compare-exchange loop -/
+
+/-- **child_inc_step_cases** — what the machine accepts from a thread whose update of child `c` through a handle
+    is open (`incChild c`: no step yet; `incCas c cur`: loaded `cur`; `incRetry c cur`: a failed exchange
+    reported `cur`), and what each accepted event does:
+    * a `fetch_add` ("A") is accepted only before any other step of the call, has operand 1 and returns the
+      child's current value; it commits `.inc c` (through `vEff`) and completes the call;
+    * a load ("L") is accepted before any step or after a failed exchange, returns the child's current value
+      `v`, commits NOTHING (content and log unchanged) and leaves the thread at `incCas c v`;
+    * a compare-exchange ("C") is accepted after a load or a failed exchange, expects the value `cur` loaded /
+      reported and installs `cur + 1`; if it succeeds, the child's CURRENT value is `cur` (= the value found) and it
+      commits `.inc c` (through `vEff`) and completes the call - no update is lost; if it fails, it reports the
+      child's current value `v`, commits NOTHING and leaves the thread at `incRetry c v`.
+    No other event is accepted, every ordering is at least Relaxed, and all three identify `e.loc` as the
+    cell of child `c` by the same `bindChild`. -/
+theorem child_inc_step_cases {s s' : VSt} {e : Ev} {th : Th VPc} {pc : VPc} {c : Nat}
+    (hth : s.ths[e.tid]? = some th) (hpc : th.pc = some pc)
+    (hc : pc = .incChild c ∨ ∃ cur, pc = .incCas c cur ∨ pc = .incRetry c cur)
+    (h : vStep s e = .ok s') :
+    ordGe e.ord "Relaxed" = true ∧ (∃ s1, bindChild s e.loc c = .ok s1) ∧
+    ((e.k = "A" ∧ pc = .incChild c ∧ e.a = 1 ∧ e.res = s.spec.vals.getD c 0 ∧
+        s'.spec = (s.spec.apply (.inc c)).1 ∧ s'.lin = s.lin ++ [⟨e.tid, th.idx, .inc c, .unit⟩] ∧
+        s'.ths = s.ths.set e.tid { th with pc := none, retv := some "" }) ∨
+     (e.k = "L" ∧ (pc = .incChild c ∨ ∃ cur, pc = .incRetry c cur) ∧ e.res = s.spec.vals.getD c 0 ∧
+        s'.spec = s.spec ∧ s'.lin = s.lin ∧
+        s'.ths = s.ths.set e.tid { th with pc := some (.incCas c e.res) }) ∨
+     (e.k = "C" ∧ ∃ cur, (pc = .incCas c cur ∨ pc = .incRetry c cur) ∧ e.a = cur ∧ e.b = cur + 1 ∧
+        ((e.ok = true ∧ s.spec.vals.getD c 0 = cur ∧ e.res = cur ∧
+            s'.spec = (s.spec.apply (.inc c)).1 ∧ s'.lin = s.lin ++ [⟨e.tid, th.idx, .inc c, .unit⟩] ∧
+            s'.ths = s.ths.set e.tid { th with pc := none, retv := some "" }) ∨
+         (e.ok = false ∧ e.res = s.spec.vals.getD c 0 ∧ s'.spec = s.spec ∧ s'.lin = s.lin ∧
+            s'.ths = s.ths.set e.tid { th with pc := some (.incRetry c e.res) })))) := by
+  unfold vStep at h
+  rw [hth] at h
+  simp only [hpc] at h
+  rcases hc with rfl | ⟨cur, rfl | rfl⟩
+  · simp only at h
+    split at h
+    · obtain ⟨h1, h2, h3, h4, h5, h6, h7⟩ := vIncLoad_spec h
+      exact ⟨h2, h4, .inr (.inl ⟨h1, .inl rfl, h3, h5, h6, h7⟩)⟩
+    · obtain ⟨h1, h2, h3, h4, h5, h6, h7, h8⟩ := vIncAdd_spec h
+      exact ⟨h2, h5, .inl ⟨h1, rfl, h3, h4, h6, h7, h8⟩⟩
+  · simp only at h
+    obtain ⟨h1, h2, h3, h4, h5, h6⟩ := vIncCas_spec h
+    exact ⟨h2, h5, .inr (.inr ⟨h1, cur, .inl rfl, h3, h4, h6⟩)⟩
+  · simp only at h
+    split at h
+    · obtain ⟨h1, h2, h3, h4, h5, h6, h7⟩ := vIncLoad_spec h
+      exact ⟨h2, h4, .inr (.inl ⟨h1, .inr ⟨cur, rfl⟩, h3, h5, h6, h7⟩)⟩
+    · obtain ⟨h1, h2, h3, h4, h5, h6⟩ := vIncCas_spec h
+      exact ⟨h2, h5, .inr (.inr ⟨h1, cur, .inr rfl, h3, h4, h6⟩)⟩
+
+/-- **child_inc_as_cas_loop_accepted** — the machine accepts an update through a handle written as
+    `load` + `compare_exchange(cur, cur + 1)` (besides the single `fetch_add`, which stays accepted:
+    `subcallTrace` in `vec_idle_thread_may_have_committed`):
+    (1) `casIncTrace`, uncontended: after the load (the first 8 items) NOTHING has been committed for the
+        update (the log is the `with`'s get-or-create alone, the child still holds 0), the thread expects the
+        exchange from the value it loaded (`incCas 0 0`) and the location `c0` has been identified as child 0's
+        cell; the successful exchange 0 -> 1 then commits `.inc 0`, the sub-call returns, the child holds 1;
+    (2) `casIncRetryTrace`, two threads increment the same child: both load 0, thread 1's exchange 0 -> 1
+        succeeds; thread 0's exchange 0 -> 1 FAILS and reports 1 - after that failure (`casIncRacePrefix`) only
+        thread 1's increment is in the log, the child holds 1 and thread 0 is at `incRetry 0 1` -; thread 0
+        goes on at once with the reported value, its exchange 1 -> 2 succeeds. Both increments are committed,
+        thread 1's first, each exactly once, and the child holds 2 in the specification;
+    (3) `casIncReloadTrace`: as (2), but thread 0 loads again (1; with stronger orderings than needed: SeqCst
+        load, AcqRel exchange) before the exchange 1 -> 2: same log, same content;
+    (4) REJECTED, each at the offending event (item 16 resp. 8) with the message that says why:
+        `casIncStaleTrace` - thread 0's exchange 0 -> 1 claims success although the child holds 1 by then (a lost
+        update); `casIncWrongNewTrace` - the exchange installs 2 instead of 0 + 1; `casIncWrongReportTrace` - the
+        failed exchange reports 0 although the child holds 1.
+    The end states of (1)-(3) are `VReach`able, so `vec_linearizable`, `keys_distinct`,
+    `vec_real_time_order` … apply to them. -/
+theorem child_inc_as_cas_loop_accepted :
+    (∃ s1 s, runItems vItem (vInit [["with:a"]]) (casIncTrace.take 8) 0 = .ok s1 ∧
+      s1.lin = [⟨0, 0, .getOrCreate "a", .child 0⟩] ∧ s1.spec.vals = [0] ∧
+      s1.ths.map (·.pc) = [some (.incCas 0 0)] ∧ s1.binding = [("c0", 0)] ∧
+      runItems vItem (vInit [["with:a"]]) casIncTrace 0 = .ok s ∧ VReach [["with:a"]] s ∧
+      allDone s.ths = true ∧
+      s.lin = [⟨0, 0, .getOrCreate "a", .child 0⟩, ⟨0, 1, .inc 0, .unit⟩] ∧
+      s.spec.map = [("a", 0)] ∧ s.spec.vals = [1] ∧ s.binding = [("c0", 0)]) ∧
+    (∃ s1 s, runItems vItem (vInit [["with:a"], ["with:a"]]) casIncRacePrefix 0 = .ok s1 ∧
+      s1.lin = [⟨0, 0, .getOrCreate "a", .child 0⟩, ⟨1, 0, .getOrCreate "a", .child 0⟩, ⟨1, 1, .inc 0, .unit⟩] ∧
+      s1.spec.vals = [1] ∧ s1.ths.map (·.pc) = [some (.incRetry 0 1), none] ∧
+      runItems vItem (vInit [["with:a"], ["with:a"]]) casIncRetryTrace 0 = .ok s ∧
+      VReach [["with:a"], ["with:a"]] s ∧ allDone s.ths = true ∧
+      s.lin = [⟨0, 0, .getOrCreate "a", .child 0⟩, ⟨1, 0, .getOrCreate "a", .child 0⟩,
+               ⟨1, 1, .inc 0, .unit⟩, ⟨0, 1, .inc 0, .unit⟩] ∧
+      s.spec.map = [("a", 0)] ∧ s.spec.vals = [2] ∧ s.binding = [("c0", 0)]) ∧
+    (∃ s, runItems vItem (vInit [["with:a"], ["with:a"]]) casIncReloadTrace 0 = .ok s ∧
+      VReach [["with:a"], ["with:a"]] s ∧ allDone s.ths = true ∧
+      s.lin = [⟨0, 0, .getOrCreate "a", .child 0⟩, ⟨1, 0, .getOrCreate "a", .child 0⟩,
+               ⟨1, 1, .inc 0, .unit⟩, ⟨0, 1, .inc 0, .unit⟩] ∧
+      s.spec.map = [("a", 0)] ∧ s.spec.vals = [2] ∧ s.binding = [("c0", 0)]) ∧
+    (runItems vItem (vInit [["with:a"], ["with:a"]]) casIncStaleTrace 0 =
+        .error "diverge@16: inc: cas succeeded although the child no longer holds the expected value" ∧
+     runItems vItem (vInit [["with:a"]]) casIncWrongNewTrace 0 =
+        .error "diverge@8: inc: expected cas Relaxed 0 -> 1" ∧
+     runItems vItem (vInit [["with:a"], ["with:a"]]) casIncWrongReportTrace 0 =
+        .error "diverge@16: inc: failed cas reports a wrong current value") := by
+  have r0 : Nat.repr 0 = "0" := by decide +kernel
+  have og : ordGe "Relaxed" "Relaxed" = true := by decide +kernel
+  have og2 : ordGe "SeqCst" "Relaxed" = true := by decide +kernel
+  have og3 : ordGe "AcqRel" "Relaxed" = true := by decide +kernel
+  have reach : ∀ {prog tr s}, runItems vItem (vInit prog) tr 0 = .ok s → VReach prog s :=
+    fun hr => vReach_iff_vRun.2 (runItems_vRun hr)
+  refine ⟨?_, ?_, ?_, ?_, ?_, ?_⟩
+  · have h : ∃ s1 s, runItems vItem (vInit [["with:a"]]) (casIncTrace.take 8) 0 = .ok s1 ∧
+        s1.lin = [⟨0, 0, .getOrCreate "a", .child 0⟩] ∧ s1.spec.vals = [0] ∧
+        s1.ths.map (·.pc) = [some (.incCas 0 0)] ∧ s1.binding = [("c0", 0)] ∧
+        runItems vItem (vInit [["with:a"]]) casIncTrace 0 = .ok s ∧
+        allDone s.ths = true ∧
+        s.lin = [⟨0, 0, .getOrCreate "a", .child 0⟩, ⟨0, 1, .inc 0, .unit⟩] ∧
+        s.spec.map = [("a", 0)] ∧ s.spec.vals = [1] ∧ s.binding = [("c0", 0)] := by
+      simp [runItems, casIncTrace, vInit, vItem, vStep, vIncLoad, vIncCas, bindChild, vEff, setHandle, Conc.guard,
+        openCall, closeCall, allDone, r0, og, opName_with_a, opArg_with_a, endsWith_0u, endsWith_0,
+        VSpec.lookup, VSpec.apply]
+    obtain ⟨s1, s, h1, h2, h3, h4, h5, hr, h6⟩ := h
+    exact ⟨s1, s, h1, h2, h3, h4, h5, hr, reach hr, h6⟩
+  · have h : ∃ s1 s, runItems vItem (vInit [["with:a"], ["with:a"]]) casIncRacePrefix 0 = .ok s1 ∧
+        s1.lin = [⟨0, 0, .getOrCreate "a", .child 0⟩, ⟨1, 0, .getOrCreate "a", .child 0⟩, ⟨1, 1, .inc 0, .unit⟩] ∧
+        s1.spec.vals = [1] ∧ s1.ths.map (·.pc) = [some (.incRetry 0 1), none] ∧
+        runItems vItem (vInit [["with:a"], ["with:a"]]) casIncRetryTrace 0 = .ok s ∧
+        allDone s.ths = true ∧
+        s.lin = [⟨0, 0, .getOrCreate "a", .child 0⟩, ⟨1, 0, .getOrCreate "a", .child 0⟩,
+                 ⟨1, 1, .inc 0, .unit⟩, ⟨0, 1, .inc 0, .unit⟩] ∧
+        s.spec.map = [("a", 0)] ∧ s.spec.vals = [2] ∧ s.binding = [("c0", 0)] := by
+      simp [runItems, casIncRetryTrace, casIncRacePrefix, vInit, vItem, vStep, vIncLoad, vIncCas, bindChild, vEff, setHandle, Conc.guard,
+        openCall, closeCall, allDone, r0, og, opName_with_a, opArg_with_a, endsWith_0u, endsWith_0,
+        VSpec.lookup, VSpec.apply]
+    obtain ⟨s1, s, h1, h2, h3, h4, hr, h5⟩ := h
+    exact ⟨s1, s, h1, h2, h3, h4, hr, reach hr, h5⟩
+  · have h : ∃ s, runItems vItem (vInit [["with:a"], ["with:a"]]) casIncReloadTrace 0 = .ok s ∧
+        allDone s.ths = true ∧
+        s.lin = [⟨0, 0, .getOrCreate "a", .child 0⟩, ⟨1, 0, .getOrCreate "a", .child 0⟩,
+                 ⟨1, 1, .inc 0, .unit⟩, ⟨0, 1, .inc 0, .unit⟩] ∧
+        s.spec.map = [("a", 0)] ∧ s.spec.vals = [2] ∧ s.binding = [("c0", 0)] := by
+      simp [runItems, casIncReloadTrace, casIncRacePrefix, vInit, vItem, vStep, vIncLoad, vIncCas, bindChild, vEff, setHandle, Conc.guard,
+        openCall, closeCall, allDone, r0, og, og2, og3, opName_with_a, opArg_with_a, endsWith_0u, endsWith_0,
+        VSpec.lookup, VSpec.apply]
+    obtain ⟨s, hr, h1⟩ := h
+    exact ⟨s, hr, reach hr, h1⟩
+  · simp [runItems, casIncStaleTrace, casIncRacePrefix, vInit, vItem, vStep, vIncLoad, vIncCas, bindChild, vEff, setHandle, Conc.guard,
+      openCall, closeCall, r0, og, opName_with_a, opArg_with_a, endsWith_0u, endsWith_0, VSpec.lookup, VSpec.apply]
+    decide +kernel
+  · simp [runItems, casIncWrongNewTrace, casIncTrace, vInit, vItem, vStep, vIncLoad, vIncCas, bindChild, vEff, setHandle, Conc.guard,
+      openCall, closeCall, r0, og, opName_with_a, opArg_with_a, endsWith_0, VSpec.lookup, VSpec.apply]
+    decide +kernel
+  · simp [runItems, casIncWrongReportTrace, casIncRacePrefix, vInit, vItem, vStep, vIncLoad, vIncCas, bindChild, vEff, setHandle, Conc.guard,
+      openCall, closeCall, r0, og, opName_with_a, opArg_with_a, endsWith_0u, endsWith_0, VSpec.lookup, VSpec.apply]
     decide +kernel
 
 /-! ### consequences of the sequential specification (what "behaves like a map" means) -/
